@@ -274,6 +274,7 @@ func (l *leaderEpochCache) flush() error {
 			return err
 		}
 	}
+	verifCrashPoint("epoch.before_flush")
 	return atomic_file.WriteFile(l.checkpointFile, b)
 }
 
